@@ -23,7 +23,10 @@ def make_stream(rng, n_msgs):
     out = []
     for i in range(n_msgs):
         r = rng.random()
-        if r < 0.55:
+        if r < 0.12:
+            m = DiameterRequest(command_code=316, application_id=16777251)          # a bare header: 20 bytes, no AVPs
+            out.append(("app", m.dump()))
+        elif r < 0.55:
             m = DiameterRequest(command_code=316, application_id=16777251)
             m.append(UserNameAVP("in%d-" % i + "y" * rng.choice([0, 1, 7, 40, 300])))
             out.append(("app", m.dump()))
@@ -60,7 +63,7 @@ def segment(rng, stream, mode):
     return cuts
 
 
-def scenario(seed, n_msgs, mode, lines):
+def scenario(seed, n_msgs, mode, lines, coalesce=False):
     import bromelia.transport as TR
     import bromelia.setup as ST
     import bromelia.statemachine as SM
@@ -91,7 +94,7 @@ def scenario(seed, n_msgs, mode, lines):
         old = self.__dict__.get("_recv_data_stream_value", b"")
         if len(v) > len(old):
             log.append(("c", len(v) - len(old)))
-        elif not v and state["cea_taken"]:
+        elif not v and old:
             log.append(("w",))
         self.__dict__["_recv_data_stream_value"] = v
     TR.TcpConnection._recv_data_stream = property(_get_rs, _set_rs)
@@ -118,10 +121,16 @@ def scenario(seed, n_msgs, mode, lines):
                     cer = DiameterMessage.load(msgs[0])[0]
                     cea = CEA(origin_host="peer.h", origin_realm="peer.r", host_ip_address="127.0.0.2")
                     cea.header.hop_by_hop, cea.header.end_to_end = cer.header.hop_by_hop, cer.header.end_to_end
-                    sock.inbox.append(cea.dump())
+                    state["cea_bytes"] = cea.dump()
+                    if coalesce:
+                        # the peer does not wait: CEA and the messages behind it travel in the same segments
+                        state["chunks"] = segment(rng, cea.dump() + b"".join(b for _, b in sent), mode)
+                        state["cut"] = True
+                    else:
+                        sock.inbox.append(cea.dump())
                     state["cea"] = True
                 return False
-            if not state["cea_taken"]:
+            if not coalesce and not state["cea_taken"]:
                 return False
             if not state.get("cut"):
                 state["chunks"] = segment(rng, b"".join(b for _, b in sent), mode)
@@ -141,7 +150,7 @@ def scenario(seed, n_msgs, mode, lines):
         undo()
         del TR.TcpConnection._recv_data_stream
     return {"status": status, "sent": sent, "got": got, "taken": taken, "log": log, "blocked": blocked, "excs": excs, "qids": qids,
-            "steps": s.steps, "n_app": n_app, "undelivered_by_network": len(state["chunks"]) + len(sock.inbox) if state.get("cut") else -1}
+            "steps": s.steps, "n_app": n_app, "cea_len": len(state.get("cea_bytes", b"")), "undelivered_by_network": len(state["chunks"]) + len(sock.inbox) if state.get("cut") else -1}
 
 
 def verdict(res):
@@ -171,16 +180,12 @@ def verdict(res):
 def to_model(res):
     rq, dq = res["qids"]
     acts = []
-    first = True
     for ev in res["log"]:
         if ev[0] == "c":
             acts.append("c%d" % ev[1])
         elif ev[0] == "w":
             acts.append("w")
         elif ev[0] == "get" and ev[1] == rq:
-            if first:
-                first = False                       # the CEA, consumed before the stream under test starts
-                continue
             acts.append("t")
         elif ev[0] == "get" and ev[1] == dq:
             acts.append("g")
@@ -263,14 +268,17 @@ def explore(chk, rng, n, tag):
     logging.disable(logging.CRITICAL)
     lines, meta = [], []
     for _ in range(n):
+        if chk.saturated():
+            break
         seed = rng.randrange(2 ** 30)
         n_msgs = rng.choice([1, 3, 6, 12])
         mode = rng.choice(["bytes", "small", "mixed", "mixed", "big"])
         lines_mode = rng.random() < 0.25
         if mode == "bytes" and lines_mode:
             n_msgs = min(n_msgs, 3)                  # one byte per read under line-level hand-over is slow: keep it within the budget
-        res = scenario(seed, n_msgs, mode, lines_mode)
-        inp = {"op": "inbound", "seed": seed, "messages": n_msgs, "segmentation": mode, "line_level": lines_mode,
+        coalesce = rng.random() < 0.4
+        res = scenario(seed, n_msgs, mode, lines_mode, coalesce)
+        inp = {"op": "inbound", "seed": seed, "messages": n_msgs, "segmentation": mode, "line_level": lines_mode, "coalesced_with_cea": coalesce,
                "kinds": "".join("A" if k == "app" else "b" for k, _ in res["sent"])}
         chk.case(inp, kind="%s:%s%s" % (tag, mode, ":lines" if lines_mode else ""))
         v = verdict(res)
@@ -279,8 +287,8 @@ def explore(chk, rng, n, tag):
         if v:
             chk.violation(v[0], inp, "the application receives exactly the application messages sent, once, complete, in order", v[1])
         # the chunk/worker log starts after the CEA: drop the chunk events that belong to it
-        descr = " ".join("%d.%d.%s" % ((i + 1) % 251, len(b), "a" if k == "app" else "b") for i, (k, b) in enumerate(res["sent"]))
-        lines.append("inb %d %s %s" % (len(res["sent"]), descr, " ".join(to_model(res))))
+        descr = " ".join("%d.%d.%s" % ((i + 1) % 250, len(b), "a" if k == "app" else "b") for i, (k, b) in enumerate(res["sent"]))
+        lines.append("inb %d 250.%d.b %s %s" % (len(res["sent"]) + 1, res["cea_len"], descr, " ".join(to_model(res))))
         meta.append((inp, res))
     out = core.run_driver(lines)
     for (inp, res), o in zip(meta, out):
@@ -289,7 +297,7 @@ def explore(chk, rng, n, tag):
         sent = res["sent"]
         index = {}
         for i, (k, b) in enumerate(sent):
-            index.setdefault(b, []).append((i + 1) % 251)
+            index.setdefault(b, []).append((i + 1) % 250)
         def ids_of(blobs):
             seen, out_ = {}, []
             for b in blobs:
@@ -303,6 +311,8 @@ def explore(chk, rng, n, tag):
             return ",".join(out_) or "-"
         impl_delivered = ids_of([g for g in res["got"] if g is not None])
         impl_ticked = ids_of([m.dump() for m in res["taken"][1:]])
+        if res["taken"]:
+            impl_ticked = "250" if impl_ticked == "-" else "250," + impl_ticked
         if impl_delivered != f.get("delivered") or impl_ticked != f.get("ticked"):
             chk.corr_break("inbound-trace", inp, {"delivered": impl_delivered, "taken": impl_ticked},
                            {"delivered": f.get("delivered"), "taken": f.get("ticked")})
@@ -324,7 +334,7 @@ def run(chk):
     chk.trusted += ["correspondence harness props/c04.py: scripted FakeSock, the transport's receive buffer attribute watched through a "
                     "class-level property, queue gets logged", "simulation scheduler harness/sim.py",
                     "messages are byte strings in the model (decoding of a complete message is C02)",
-                    "the capabilities exchange precedes the stream under test (the CEA is sent whole)"]
+                    "the CEA is the first message of the modelled stream; in 40% of the runs the messages travel in the same segments as the CEA"]
     quick = chk.tier == "quick"
     explore_handoff(chk, rng, 400 if quick else 20000, 60 if quick else 2000, "sweep")
     explore(chk, rng, 40 if quick else 2500, "sweep")
